@@ -327,6 +327,103 @@ def _only_read_by_callee(idx, mod, fi, attr_node):
     return True
 
 
+def library_membership(ctx, idx, rule, init):
+    """the predicate selecting registry entries for a requested library: module equality or a dotted-prefix test"""
+    # the comprehension filtering Command.get_commands()
+    sel = None
+    for n in own_nodes(init.node):
+        if isinstance(n, (ast.ListComp, ast.GeneratorExp, ast.SetComp, ast.DictComp)):
+            g = n.generators[0]
+            if "get_commands" in ast.unparse(g.iter) or "._commands" in ast.unparse(g.iter):
+                sel = (n, g)
+    con = "%s::library-membership" % init.key
+    delegated = None
+    if sel is None:
+        # no comprehension here: the registry accessor itself is given the libraries (`x = Command.get_commands(libraries)`)
+        for n in own_nodes(init.node):
+            if isinstance(n, ast.Assign) and isinstance(n.value, ast.Call) and "get_commands" in K.src(n.value.func) and (n.value.args or n.value.keywords):
+                delegated = n.value
+                comp = n.value
+    if sel is None and delegated is None:
+        raise AnalysisError(rule + ": cannot find the selection over the command registry in Program.__init__")
+    if sel is not None:
+        comp, g = sel
+        tvar = g.target.id if isinstance(g.target, ast.Name) else None
+        if not g.ifs and isinstance(g.iter, ast.Call) and (g.iter.args or g.iter.keywords):
+            delegated = g.iter
+    if delegated is not None:
+        # the selection is handed the requested libraries: the filter lives in the callee
+        r_ = idx.call_targets(init, delegated)
+        callee = r_[0][0] if r_ and r_[0] and len(r_[0]) == 1 else None
+        if callee is None:
+            raise AnalysisError(rule + ": the registry selection `%s` is given the libraries, but its callee cannot be resolved" % K.src(delegated)[:60])
+        node_c = getattr(callee, "node_orig", None) or callee.node
+        for x in ast.walk(node_c):
+            if isinstance(x, ast.Call) and (idx.qualname(callee.module, x.func, callee) or "") in ("re.compile", "re.match", "re.search", "re.fullmatch") and x.args:
+                pat = K.src(K.expand(callee, x.args[0]))
+                if ".join(" in pat and "escape" not in pat:
+                    ctx.violate(rule, con, K.rel(callee), x.lineno, "`%s` builds a regular expression from the requested library names as they are: every `.` of a dotted name matches any character, so requesting `pkg.ext` also selects the commands of a module `pkg_ext` / `pkgXext` that something else loaded" % K.src(x)[:70])
+                    return comp
+        raise AnalysisError(rule + ": the libraries are filtered inside %s; the form used there is outside the recognised ones" % callee.qualname)
+    if not g.ifs:
+        ctx.violate(rule, con, K.rel(init), comp.lineno, "registry entries are not filtered by the requested libraries at all: every command class ever defined in the process is visible")
+    else:
+        cond = g.ifs[0]
+        # a conjunct that only drops entries already collected (`and info not in <the list being built>`) does not change the set
+        if isinstance(cond, ast.BoolOp) and isinstance(cond.op, ast.And):
+            built = {t.id for st in own_nodes(init.node) if isinstance(st, (ast.Assign, ast.AugAssign)) for t in (st.targets if isinstance(st, ast.Assign) else [st.target]) if isinstance(t, ast.Name) and any(comp is x for x in ast.walk(st.value))}
+            rest = [c_ for c_ in cond.values if not (isinstance(c_, ast.Compare) and len(c_.ops) == 1 and isinstance(c_.ops[0], ast.NotIn) and isinstance(c_.left, ast.Name) and c_.left.id == tvar and isinstance(c_.comparators[0], ast.Name) and c_.comparators[0].id in built)]
+            if len(rest) == 1:
+                cond = rest[0]
+        verdict = None
+        libvar = None
+        inner = None
+        pre = None
+        if isinstance(cond, ast.Call) and isinstance(cond.func, ast.Name) and cond.func.id == "any" and cond.args and isinstance(cond.args[0], (ast.GeneratorExp, ast.ListComp)):
+            ig = cond.args[0].generators[0]
+            if isinstance(ig.target, ast.Name) and isinstance(ig.iter, ast.Name):
+                libvar = ig.target.id
+                inner = cond.args[0].elt
+        elif isinstance(cond, ast.Call) and isinstance(cond.func, ast.Attribute) and cond.func.attr == "startswith" and len(cond.args) == 1 \
+                and (isinstance(cond.args[0], ast.Name) or (isinstance(cond.args[0], ast.Call) and K.src(cond.args[0].func) == "tuple" and len(cond.args[0].args) == 1 and isinstance(cond.args[0].args[0], ast.Name))) \
+                and isinstance(cond.func.value, ast.Attribute) and cond.func.value.attr in ("module", "__module__"):
+            # module.startswith(tuple(libraries)): a bare prefix test against every requested name at once
+            pre = ("bare-prefix", cond)
+        elif isinstance(cond, ast.Compare) and isinstance(cond.ops[0], ast.In) and isinstance(cond.comparators[0], ast.Name):
+            # info.module in libraries : exact
+            l = cond.left
+            if isinstance(l, ast.Attribute) and l.attr == "module":
+                verdict = "exact"
+
+        def mvar_ok(x):
+            return isinstance(x, ast.Attribute) and x.attr in ("module", "__module__") and (
+                (isinstance(x.value, ast.Name) and x.value.id == tvar) or (isinstance(x.value, ast.Attribute) and isinstance(x.value.value, ast.Name) and x.value.value.id == tvar))
+
+        if inner is not None:
+            verdict = classify_membership(inner, mvar_ok, libvar)
+        if pre is not None:
+            verdict, inner = pre
+        if verdict is None and inner is None:
+            # the predicate is written directly, `lib` being a loop variable or parameter of the enclosing code
+            cands = {n.id for n in ast.walk(cond) if isinstance(n, ast.Name)} - {tvar}
+            for cnd in sorted(cands):
+                v = classify_membership(cond, mvar_ok, cnd)
+                if v is not None:
+                    verdict, inner = v, cond
+                    break
+        if verdict == "exact":
+            ctx.hold(rule, con, K.rel(init), comp.lineno, "membership is exact: %s" % K.src(cond))
+        elif verdict in ("bare-prefix", "substring"):
+            ctx.violate(rule, con, K.rel(init), comp.lineno,
+                        "`%s` is a %s test: requesting library `mylib` also selects the commands of `mylib2` / `mylib_extra`" % (K.src(inner), "bare prefix" if verdict == "bare-prefix" else "substring"))
+        elif verdict == "zip-truncated":
+            ctx.violate(rule, con, K.rel(init), comp.lineno,
+                        "`%s` compares the dotted paths part by part over zip(), which stops at the shorter one: requesting `pkg.sub` also selects the commands defined in `pkg` itself (every ancestor package matches)" % K.src(inner)[:90])
+        else:
+            raise AnalysisError(rule + ": membership predicate `%s` is outside the recognised forms" % K.src(cond))
+    return comp
+
+
 def run(ctx, idx):
     del _UNDECIDED[:]
     A = K.anchors(idx)
@@ -392,66 +489,7 @@ def run(ctx, idx):
             if hit:
                 ctx.violate("C19.e", "%s::import-state(%s)" % (f_.key, hit), K.rel(f_), x_.lineno, "`%s` changes `%s`, which belongs to the whole process and is never put back: the libraries a later program can import - and which file a bare module name resolves to - now depend on the programs constructed before it" % (K.src(x_)[:60], hit))
     ctx.floor("C19.e", "functions on the construction path", n_fn, 2)
-    # the comprehension filtering Command.get_commands()
-    sel = None
-    for n in own_nodes(init.node):
-        if isinstance(n, (ast.ListComp, ast.GeneratorExp, ast.SetComp, ast.DictComp)):
-            g = n.generators[0]
-            if "get_commands" in ast.unparse(g.iter) or "_commands" in ast.unparse(g.iter):
-                sel = (n, g)
-    con = "%s::library-membership" % init.key
-    if sel is None:
-        raise AnalysisError("C19.a: cannot find the selection over the command registry in Program.__init__")
-    comp, g = sel
-    tvar = g.target.id if isinstance(g.target, ast.Name) else None
-    if not g.ifs:
-        ctx.violate("C19.a", con, K.rel(init), comp.lineno, "registry entries are not filtered by the requested libraries at all: every command class ever defined in the process is visible")
-    else:
-        cond = g.ifs[0]
-        # a conjunct that only drops entries already collected (`and info not in <the list being built>`) does not change the set
-        if isinstance(cond, ast.BoolOp) and isinstance(cond.op, ast.And):
-            built = {t.id for st in own_nodes(init.node) if isinstance(st, (ast.Assign, ast.AugAssign)) for t in (st.targets if isinstance(st, ast.Assign) else [st.target]) if isinstance(t, ast.Name) and any(comp is x for x in ast.walk(st.value))}
-            rest = [c_ for c_ in cond.values if not (isinstance(c_, ast.Compare) and len(c_.ops) == 1 and isinstance(c_.ops[0], ast.NotIn) and isinstance(c_.left, ast.Name) and c_.left.id == tvar and isinstance(c_.comparators[0], ast.Name) and c_.comparators[0].id in built)]
-            if len(rest) == 1:
-                cond = rest[0]
-        verdict = None
-        libvar = None
-        inner = None
-        if isinstance(cond, ast.Call) and isinstance(cond.func, ast.Name) and cond.func.id == "any" and cond.args and isinstance(cond.args[0], (ast.GeneratorExp, ast.ListComp)):
-            ig = cond.args[0].generators[0]
-            if isinstance(ig.target, ast.Name) and isinstance(ig.iter, ast.Name):
-                libvar = ig.target.id
-                inner = cond.args[0].elt
-        elif isinstance(cond, ast.Compare) and isinstance(cond.ops[0], ast.In) and isinstance(cond.comparators[0], ast.Name):
-            # info.module in libraries : exact
-            l = cond.left
-            if isinstance(l, ast.Attribute) and l.attr == "module":
-                verdict = "exact"
-
-        def mvar_ok(x):
-            return isinstance(x, ast.Attribute) and x.attr in ("module", "__module__") and (
-                (isinstance(x.value, ast.Name) and x.value.id == tvar) or (isinstance(x.value, ast.Attribute) and isinstance(x.value.value, ast.Name) and x.value.value.id == tvar))
-
-        if inner is not None:
-            verdict = classify_membership(inner, mvar_ok, libvar)
-        if verdict is None and inner is None:
-            # the predicate is written directly, `lib` being a loop variable or parameter of the enclosing code
-            cands = {n.id for n in ast.walk(cond) if isinstance(n, ast.Name)} - {tvar}
-            for cnd in sorted(cands):
-                v = classify_membership(cond, mvar_ok, cnd)
-                if v is not None:
-                    verdict, inner = v, cond
-                    break
-        if verdict == "exact":
-            ctx.hold("C19.a", con, K.rel(init), comp.lineno, "membership is exact: %s" % K.src(cond))
-        elif verdict in ("bare-prefix", "substring"):
-            ctx.violate("C19.a", con, K.rel(init), comp.lineno,
-                        "`%s` is a %s test: requesting library `mylib` also selects the commands of `mylib2` / `mylib_extra`" % (K.src(inner), "bare prefix" if verdict == "bare-prefix" else "substring"))
-        elif verdict == "zip-truncated":
-            ctx.violate("C19.a", con, K.rel(init), comp.lineno,
-                        "`%s` compares the dotted paths part by part over zip(), which stops at the shorter one: requesting `pkg.sub` also selects the commands defined in `pkg` itself (every ancestor package matches)" % K.src(inner)[:90])
-        else:
-            raise AnalysisError("C19.a: membership predicate `%s` is outside the recognised forms" % K.src(cond))
+    comp = library_membership(ctx, idx, "C19.a", init)
     # every requested library is loaded, whatever else was requested with it
     cfg0 = K.cfg_of(idx, init)
     libparam = [a.arg for a in init.node.args.args if "lib" in a.arg.lower()]
@@ -521,8 +559,12 @@ def run(ctx, idx):
     cfg = K.cfg_of(idx, init)
     stores = cfg.find("store", lambda n: n.meta.get("attr") == "command_library" and self_attr(n.ast, sn))
     if not stores:
-        # by role: the attribute find_command_class reads
-        fcc = prog.methods.get("find_command_class")
+        shared = prog.attrs.get("command_library")
+        muts = [n for n in own_nodes(init.node) if (isinstance(n, ast.Call) and isinstance(n.func, ast.Attribute) and n.func.attr in ("update", "setdefault", "__setitem__") and K.src(n.func.value) == "%s.command_library" % sn)
+                or (isinstance(n, ast.Assign) and any(isinstance(t, ast.Subscript) and K.src(t.value) == "%s.command_library" % sn for t in n.targets))]
+        if shared is not None and muts:
+            ctx.violate("C19.c", "%s::lookup-store" % init.key, K.rel(init), muts[0].lineno, "`%s` fills the class-level `command_library` instead of giving the program a table of its own: every Program in the process adds to - and resolves names in - the same dict, so a program sees the commands of libraries only OTHER programs requested (and `Program(libraries=())` is not empty after any other construction)" % K.src(muts[0])[:60])
+            raise AnalysisError("C19.b: the per-program lookup is not assigned in Program.__init__ (see the C19.c violation)")
         raise AnalysisError("C19.b: store of the command lookup not found in Program.__init__")
     raises = [r for r in cfg.find("raise")]
     con = "%s::duplicate-gate" % init.key
